@@ -513,6 +513,21 @@ func (sfr *SegmentFileReader) getCurrentRecordLength() (uint32, error) {
 	if sfr.consistentColValueLen > 0 && sfr.consistentColValueLen != sutils.INCONSISTENT_CVAL_SIZE {
 		return sfr.consistentColValueLen, nil
 	}
+	return sfr.getCurrentRecordLengthFromEncoding()
+}
+
+// The length that the current record has by its own type (and length) bytes
+func (sfr *SegmentFileReader) getCurrentRecordLengthFromEncoding() (uint32, error) {
+	if uint64(sfr.currOffset) >= uint64(len(sfr.currRawBlockBuffer)) {
+		return 0, ErrBadEncoding
+	}
+	switch sfr.currRawBlockBuffer[sfr.currOffset] {
+	case sutils.VALTYPE_ENC_SMALL_STRING[0], sutils.VALTYPE_DICT_ARRAY[0], sutils.VALTYPE_RAW_JSON[0]:
+		// the two length bytes must be there
+		if uint64(sfr.currOffset)+3 > uint64(len(sfr.currRawBlockBuffer)) {
+			return 0, ErrBadEncoding
+		}
+	}
 	var reclen uint32
 	switch sfr.currRawBlockBuffer[sfr.currOffset] {
 	case sutils.VALTYPE_ENC_SMALL_STRING[0]:
@@ -649,6 +664,19 @@ func (sfr *SegmentFileReader) unpackRawCsg(buf []byte, blockNum uint16) error {
 
 	sfr.currRawBlockBuffer = uncompressed
 	sfr.currOffset = 0
+
+	// The consistent column value length comes from the segment's meta file. When
+	// the first record of the block has another length by its own encoding, that
+	// value is wrong and would misalign every record: read the lengths from the
+	// records instead.
+	if sfr.consistentColValueLen > 0 && sfr.consistentColValueLen != sutils.INCONSISTENT_CVAL_SIZE {
+		recLen, err := sfr.getCurrentRecordLengthFromEncoding()
+		if err != nil || recLen != sfr.consistentColValueLen {
+			log.Errorf("SegmentFileReader.unpackRawCsg: column %v of file %v: the segment meta says every value has %v bytes, the first record of block %v has %v (err=%v); ignoring the segment meta",
+				sfr.ColName, sfr.fileName, sfr.consistentColValueLen, blockNum, recLen, err)
+			sfr.consistentColValueLen = sutils.INCONSISTENT_CVAL_SIZE
+		}
+	}
 
 	currRecLen, err := sfr.getCurrentRecordLength()
 	if err != nil {
